@@ -130,6 +130,26 @@ theorem ite_next (c : Prop) [Decidable c] (a b : σ) :
     (if c then (Ctl.next a : Ctl σ ρ) else Ctl.next b) = Ctl.next (if c then a else b) := by
   split <;> rfl
 
+/-- A loop whose body always falls through (whatever the frame) falls through. -/
+theorem goFor_always_next {α σ ρ : Type} (body : α → σ → Ctl σ ρ) (h : ∀ x s, ∃ s', body x s = .next s')
+    (xs : List α) (s : σ) : ∃ s', goFor xs s body = .next s' := by
+  induction xs generalizing s with
+  | nil => exact ⟨s, rfl⟩
+  | cons x xs ih =>
+    rw [goFor_cons]
+    obtain ⟨s1, h1⟩ := h x s
+    rw [h1]
+    exact ih s1
+
+/-- ... and followed by a returning continuation, the function does not panic. -/
+theorem seq_noPanic_of_next {α σ ρ : Type} (xs : List α) (s : σ) (body : α → σ → Ctl σ ρ) (k : σ → Ctl σ ρ) (d : ρ)
+    (hb : ∀ x s, ∃ s', body x s = .next s') (hk : ∀ s, ∃ r, k s = .ret r) :
+    ((goFor xs s body).seq k).toRes d ≠ .panic := by
+  obtain ⟨s', hs⟩ := goFor_always_next body hb xs s
+  obtain ⟨r, hr⟩ := hk s'
+  rw [hs, Ctl.seq_next, hr]
+  simp [Ctl.toRes]
+
 /-- Dereference of a Go pointer modelled as `Option`; only used after a nil guard. -/
 @[inline] def deref [Inhabited α] (p : Option α) : α := p.getD default
 
